@@ -6,12 +6,46 @@ MODEL_DEPS = ["Base/Bytes.v", "Base/GoSem.v", "Gen/FromGo.v", "DM/Value.v", "Cod
 DRIVER = "c17_driver"
 HARNESS = "c17"
 COUNTS = {"quick": 900, "thorough": 30000}
+HARNESS_TIMEOUT = {"quick": 900, "thorough": 3600}
 DESIGN_REF = "DESIGN.md §4 C17"
-TECHNIQUE = "placeholder"
-LEVEL_TEXT = "placeholder"
-LEVEL_NOTE = "placeholder"
-TRUSTED = []
-RULE = "placeholder"
+TECHNIQUE = ("Coq proof (refinement of a finite map by heap/file-system state machines over all histories; path "
+             "injectivity and containment; refutation lemmas for the pinned code) + gotrans regeneration of the sharding "
+             "functions + differential run of the extracted model against memstore, cidlink.Memory and fsstore, with the "
+             "whole sandbox directory listed after every operation")
+LEVEL_TEXT = ("Theorems in coq/Props/C17.v. (1) memstore and cidlink.Memory, modelled with explicit buffer aliasing "
+              "(copy on put, copy on get, Peek returns the stored slice; funcs.go fall-backs), refine the finite map "
+              "(projected) key -> bytes for EVERY history in which each key has one content and the caller does not write to "
+              "peeked slices: has/get/get-stream/peek agree, absent keys absent, distinct keys never alias "
+              "(C17_refines, C17_distinct_keys_never_alias); later writes to the slice handed to put never reach the store "
+              "(C17_insulated). (2) fsstore over a POSIX file-system model (filepath.Join/Clean on components, ENOENT/ENOTDIR/"
+              "EISDIR/ENAMETOOLONG/EINVAL, os.Rename's Lstat, mkdir-on-ENOENT, staging in .temp): when the escaping function is "
+              "applied and has the shape of base32, pathForKey is injective (C17_fs_injective), every system call of every "
+              "operation of every history stays strictly inside the base directory with no '..' (C17_fs_contained), and the "
+              "store refines the same finite map for all storable keys (C17_refines_fs). The sharding functions are the "
+              "definitions gotrans regenerates from sharding.go on every run; they are proved total (C17_shard_total). "
+              "(3) The code as it stands never applies escapingFunc and treats commit(\"\") as abort-with-success: the faithful "
+              "model REFUTES containment, injectivity and refinement (C17_*_refuted, by computation), and the same inputs "
+              "fail on the real code (KNOWN-FINDING lines). No bound on history length or key size in the theorems.")
+LEVEL_NOTE = ("cidlink.Memory keys by multihash by documented design: its specification is keyed by the projection cid_hash, "
+              "this is not counted as aliasing. The fs refinement covers keys whose escaped form fits NAME_MAX (255): longer "
+              "keys make Put fail with ENAMETOOLONG (modelled, observed; an error, not a wrong answer). Injectivity of the "
+              "escaping function is a hypothesis (esc_ok); for base32 the alphabet and non-emptiness are proved. The model's "
+              "base directory is an absolute clean path. Trusted: Coq kernel, extraction, gotrans, harness, the hand-written "
+              "model of package os / the kernel's path resolution (tied by the differential run on ~50 hostile key shapes).")
+TRUSTED = ["POSIX path resolution and package os (OpenFile O_EXCL, Rename = Lstat + renameat with EEXIST on directories, Mkdir, Remove, "
+           "NUL refused with EINVAL, NAME_MAX 255): hand-modelled in coq/Store/FsStore.v sys_exec/resolve; tied by correspondence only",
+           "filepath.Join/Clean for an absolute clean base: modelled on components (join_clean); tied by correspondence",
+           "the escaping function is injective (hypothesis esc_ok of the fs theorems; base32's alphabet/non-emptiness are proved)",
+           "go-cid Cid.Hash() (multihash projection used by cidlink.Memory): modelled by cid_hash over Codec/Cid.v uvarint; tied by correspondence on real CIDs",
+           "Go strings are shorter than 2^63 bytes (key_len_ok); fewer than 2^254 staging names are drawn by the model (C17_refines_fs)"]
+RULE = ("histories of 10-45 operations (new slice, overwrite slice, put, put-stream, put-vec, get, get-stream, peek, has) over 2-7 keys "
+        "drawn from real CID binaries (v0/v1, several codecs and hash functions, same multihash under different CIDs), ~55 hostile "
+        "keys (empty, '.', '..', '/', a/b vs a//b, NUL, 255/256/300 bytes, case variants, names of store directories, keys pointing "
+        "into .temp) and random bytes; for memstore, cidlink.Memory and fsstore with each sharding function; 15% of histories write "
+        "through peeked slices and 10% give a key two contents (outside the quantifier: they tie the aliasing and first/last-write "
+        "models and are judged only up to that point); plus a fixed corpus with every hostile key alone and the witnesses of the "
+        "findings; fsstore runs in a fresh directory six levels inside a fresh parent that is listed after every operation; "
+        "distinct = distinct (store, sharding, operations); non-trivial = at least 4 operations")
 
 
 def classify(fs):
